@@ -3,10 +3,13 @@
   All theorems: EVERY scenario (any outcome incl. panic values, context ending or not, before/after/simultaneous,
   with and without GoLostErrors, function finishing or never returning) and EVERY schedule of the actors.
   Partial by nature: channel / select / goroutine semantics are modelled, and the tie to the code is outcome-level
-  (real goroutines under the real Go scheduler, orders forced by the harness).
+  (real goroutines under the real Go scheduler, orders forced by the harness) — plus the structural tie of
+  Props/C18Prog.lean: the concurrency structure of today's gowrapper.go, regenerated on every run, is the program this
+  model was written for (same namespace, so its theorems are audited with these).
 -/
 import CircuitModel.Conc.GoWrap
 import CircuitProofs.Lemmas.GoWrap
+import CircuitProofs.Props.C18Prog
 namespace CM.Props.C18
 open CM.Conc.GoWrap
 
